@@ -292,6 +292,7 @@ class Interp:
     self.call_contracts = {}  # qualname -> callable(interp, fn, args, kwargs)
     self.call_depth = 0
     self.noop_names = {"print"}
+    self.explanatory_asserts = set()
 
   # ------------------------------------------------------------- modules
   def module_path(self, modname):
@@ -787,6 +788,11 @@ class Frame:
     c = _ctx.CUR
     v = self.eval(node.test)
     name = f"assert#{node._ord}@{self.qual}"
+    if name in self.interp.explanatory_asserts and node.msg is not None:
+      # an assert WITH a message that the contract lists as an explicit explanatory rejection: python semantics
+      if not truthy(v):
+        raise AssertionError(self.eval(node.msg))
+      return
     if c is None:
       assert v
       return
